@@ -1,17 +1,9 @@
 
 // R8: std methods without a vstd specification. Each line is an unchecked assumption
 // about the Rust standard library (documented semantics of the method).
-pub assume_specification [i128::signum](x: i128) -> (r: i128)
-    ensures r == sgn(x as int);
 
-pub assume_specification [i8::unsigned_abs](x: i8) -> (r: u8)
-    ensures r as int == abs_int(x as int);
 
-pub assume_specification [i128::unsigned_abs](x: i128) -> (r: u128)
-    ensures r as int == abs_int(x as int);
 
-pub assume_specification [i128::is_negative](x: i128) -> (r: bool)
-    ensures r == (x < 0);
 
 // lossless widening conversions: see std_from_int.rs (included in every unit)
 pub assume_specification<T> [<T as From<T>>::from](x: T) -> (r: T) ensures r == x;
